@@ -192,6 +192,45 @@ func deepChain(rt *rapid.T, kids []*tnode) []*tnode {
 	return append(kids, top)
 }
 
+// sameNameAsRoot: now and then an entry somewhere below has the name the transferred folder itself has ("Tree" for
+// downloads, "Up" for uploads) - a file or a folder with children of its own.
+func sameNameAsRoot(rt *rapid.T, kids []*tnode) []*tnode {
+	if rapid.IntRange(0, 7).Draw(rt, "sameNameAsRoot") != 0 {
+		return kids
+	}
+	for _, n := range []string{"Tree", "Up"} {
+		for _, k := range kids {
+			if k.name == n {
+				return kids
+			}
+		}
+	}
+	mk := func(n string) *tnode {
+		if rapid.Bool().Draw(rt, "sameName_"+n+"_dir") {
+			return &tnode{name: n, dir: true, kids: []*tnode{{name: "inside.txt", data: []byte("inside " + n)}, {name: n, data: []byte("a file named like the folder")}}}
+		}
+		return &tnode{name: n, data: []byte("a file named like the transferred folder")}
+	}
+	// at the top level or one level down
+	var dirs []*tnode
+	for _, k := range kids {
+		if k.dir && len(k.name) < 100 && k.name != "wide" && k.name != "deep" {
+			dirs = append(dirs, k)
+		}
+	}
+	if len(dirs) > 0 && rapid.Bool().Draw(rt, "sameNameDeeper") {
+		d := dirs[rapid.IntRange(0, len(dirs)-1).Draw(rt, "sameNameIn")]
+		for _, k := range d.kids {
+			if k.name == "Tree" || k.name == "Up" {
+				return kids
+			}
+		}
+		d.kids = append(d.kids, mk("Tree"), mk("Up"))
+		return kids
+	}
+	return append(kids, mk("Tree"), mk("Up"))
+}
+
 func sortKids(k []*tnode) []*tnode {
 	s := append([]*tnode{}, k...)
 	sort.Slice(s, func(i, j int) bool { return s[i].name < s[j].name })
@@ -428,6 +467,7 @@ func c10download(ev *evid.Rec) func(rt *rapid.T) {
 		kids := genTree(rt, "t", 0, &budget, true)
 		kids = wideFolder(rt, kids)
 		kids = deepChain(rt, kids)
+		kids = sameNameAsRoot(rt, kids)
 		kids = decorate(rt, "f", kids)
 		preserve := rapid.Bool().Draw(rt, "preserveResourceForks") // the option governs what uploads keep, not what downloads send
 		script := rapid.SliceOfN(rapid.IntRange(0, 9), 60, 60).Draw(rt, "script")
@@ -486,6 +526,7 @@ func c10upload(ev *evid.Rec) func(rt *rapid.T) {
 		kids := genTree(rt, "t", 0, &budget, false)
 		kids = wideFolder(rt, kids)
 		kids = deepChain(rt, kids)
+		kids = sameNameAsRoot(rt, kids)
 		// some clients end the information fork of an item right after the name (items are streamed without a comment)
 		hlref.ShortInfoFork = rapid.Bool().Draw(rt, "shortInfoFork")
 		defer func() { hlref.ShortInfoFork = false }()
